@@ -383,6 +383,7 @@ impl RefusedPort {
 
 impl Drop for RefusedPort {
     fn drop(&mut self) {
+        release_port(self.port);
         unsafe {
             libc::close(self.fd);
         }
@@ -396,14 +397,67 @@ pub struct Collector {
     refused: Mutex<Option<RefusedPort>>,
 }
 
-fn bind_loopback() -> Result<TcpListener, String> {
+// ---------------------------------------------------------------------------------------------
+// Port quarantine. An emitter can outlive the collector of its case (its detached worker keeps retrying a
+// failed batch for the whole retry budget). If the OS handed that collector's port to the collector of a
+// LATER case, the stale emitter would deliver its events there — cross-talk between cases. Ports a
+// collector has used are therefore not accepted again for a while.
+
+struct Quarantine {
+    period: Duration,
+    released: std::collections::HashMap<u16, Instant>,
+}
+
+static QUARANTINE: Mutex<Option<Quarantine>> = Mutex::new(None);
+
+fn with_quarantine<R>(f: impl FnOnce(&mut Quarantine) -> R) -> R {
+    let mut q = QUARANTINE.lock().unwrap();
+    f(q.get_or_insert_with(|| Quarantine { period: Duration::from_secs(10), released: Default::default() }))
+}
+
+/// How long a port released by a collector of this process stays unusable for new collectors
+/// (default 10 s). Set it above the longest time an emitter can keep retrying after its case ended.
+pub fn set_port_quarantine(period: Duration) {
+    with_quarantine(|q| q.period = period);
+}
+
+fn release_port(port: u16) {
+    with_quarantine(|q| {
+        let now = Instant::now();
+        let period = q.period;
+        q.released.retain(|_, t| now.duration_since(*t) < period);
+        q.released.insert(port, now);
+    });
+}
+
+fn quarantined(port: u16) -> bool {
+    with_quarantine(|q| match q.released.get(&port) {
+        Some(t) => t.elapsed() < q.period,
+        None => false,
+    })
+}
+
+pub(crate) fn bind_loopback() -> Result<TcpListener, String> {
     // `bind(127.0.0.1:0)` fails with EADDRINUSE when the ephemeral range is exhausted (tens of
     // thousands of short-lived connections in TIME_WAIT): wait for ports to come back before giving up
     let mut last = String::new();
+    // listeners that landed on a quarantined port are kept bound until a usable one is found, so the
+    // OS cannot offer the same port again
+    let mut rejected = Vec::new();
     for _ in 0..600 {
         match TcpListener::bind("127.0.0.1:0") {
-            Ok(l) => return Ok(l),
-            Err(e) => last = e.to_string(),
+            Ok(l) => {
+                let port = l.local_addr().map(|a| a.port()).unwrap_or(0);
+                if quarantined(port) && rejected.len() < 4096 {
+                    rejected.push(l);
+                    continue;
+                }
+                return Ok(l);
+            }
+            Err(e) => {
+                last = e.to_string();
+                rejected.clear();
+            }
         }
         std::thread::sleep(Duration::from_millis(100));
     }
@@ -493,7 +547,24 @@ impl Collector {
     pub fn refused_base(&self) -> String {
         let mut r = self.refused.lock().unwrap();
         if r.is_none() {
-            *r = RefusedPort::new();
+            // (ports still in quarantine are held until a usable one turns up)
+            let mut rejected = Vec::new();
+            while rejected.len() < 64 {
+                match RefusedPort::new() {
+                    Some(p) if quarantined(p.port) => rejected.push(p),
+                    other => {
+                        *r = other;
+                        break;
+                    }
+                }
+            }
+            // a rejected port was never handed out: do not restart its quarantine
+            for p in rejected {
+                unsafe {
+                    libc::close(p.fd);
+                }
+                std::mem::forget(p);
+            }
         }
         match r.as_ref() {
             Some(p) => format!("http://127.0.0.1:{}", p.port),
@@ -570,6 +641,7 @@ impl Collector {
         if self.inner.shutdown.swap(true, Ordering::SeqCst) {
             return;
         }
+        release_port(self.http_addr.port());
         self.inner.cv.notify_all();
         // wake the accept loop (closed by reset so that our own ephemeral port does not linger in TIME_WAIT)
         if let Ok(wake) = TcpStream::connect_timeout(&self.http_addr, Duration::from_millis(500)) {
@@ -584,6 +656,7 @@ impl Collector {
             abort_stream(s);
         }
         if let Some(g) = self.grpc.lock().unwrap().take() {
+            release_port(g.addr.port());
             g.stop();
         }
         for t in threads {
